@@ -21,6 +21,7 @@ open Proto Load
         -> cfg=<cfg['datafields'] after the load> ok exp=… mc=… | cfg=… err <class>
       keepf <dpExp,dpMc,anExp,anMc> <cfgFields> <dsFields> <expRen> <mcRen> <keep>  -> exp=<names> mc=<names>
       rename <names> <old:new,…>   -> ok name:source-index,… | err <class>     (rename_fields, any dictionary)
+      abspaths <root_dir> <a:name|r:name,…>  -> resolved names in listed order (get_abs_pathfilename_list)
       orcheck <stage> <stages>  -> 0|1
 -/
 
@@ -136,6 +137,11 @@ def answer (line : String) : String :=
     match renameFields (pRen ren) (⟨cols, 1⟩ : A) with
     | .ok a => "ok " ++ fListD (fun (c : Col String DT Int) => s!"{c.name}:{fList (fun (v : Int) => toString v) c.cells}") a.cols
     | .error e => "err " ++ fErr e
+  | ["abspaths", root, entries] =>
+    -- Dataset.get_abs_pathfilename_list: entries `a:<absolute name>` | `r:<relative name>`
+    let es : List (PathEntry String) := (pList id entries).map (fun x =>
+      if x.startsWith "a:" then PathEntry.abs (x.drop 2).toString else PathEntry.rel (x.drop 2).toString)
+    fListD id (getAbsPaths (fun p => root ++ "/" ++ p) es)
   | ["orcheck", a, b] => fB (orCheck (pN a) (pN b))
   | _ => "bad-op"
 
